@@ -172,38 +172,72 @@ def r2_r3(ctx):
            sig="feature_from_line(dialect=self.dialect)" if ok else "feature_from_line called with another dialect: %s" % [getattr(d, "name", repr(d)) for _l, d in seen])
 
 
+R5_CORPUS = [
+    ("gff3", "ID=g1;Name=G1;Parent=p1,p2"),
+    ("gff3, trailing semicolon", "ID=g1;Name=G1;"),
+    ("gff3, ' ; ' separators", "ID=g1 ; Name=G1"),
+    ("gtf", 'gene_id "g1"; transcript_id "t1";'),
+    ("gtf, repeated key", 'gene_id "g1"; tag "a"; tag "b";'),
+    ("unquoted gff2", "gene_id g1; transcript_id t1"),
+    ("one unquoted pair", "Name x"),
+    ("empty", ""),
+]
+
+
 def r5(ctx):
-    from ..flow import Flow, show
-    eff = Effects(ctx)
-    target = "parser._split_keyvals"
-    want = ["feature.Feature.__init__", "feature.feature_from_line", "helpers.infer_dialect"]
-    for q in want:
-        fq = ctx.proj.maybe_func(q)
-        ctx.require(fq is not None, "anchor vanished: %s" % q)
-        ctx.touch(fq)
-        ok = target in eff.reach(q)
-        ctx.ob("R5", ok, "one inference function sits behind DataIterator, FeatureDB and helpers.infer_dialect (%s reaches it)" % q.split(".", 1)[1], func=fq,
-               sig="%s reaches _split_keyvals" % q.split(".", 1)[1] if ok else "%s no longer reaches _split_keyvals" % q.split(".", 1)[1])
+    """Sibling agreement, evaluated: for one attribute text, the parser's own inference, helpers.infer_dialect, the Feature
+    built by feature_from_line and a DataIterator over the line report the same dialect dictionary (key order included)."""
+    from . import scen
+    from ..absint import Unsupported
+    sk = require_func(ctx, "parser._split_keyvals")
     idf = require_func(ctx, "helpers.infer_dialect")
-    fl = Flow(ctx, [idf], rows=False)
-    rets = [n for n in ast.walk(idf.node) if isinstance(n, ast.Return) and n.value is not None]
-    ts = set()
-    for r in rets:
-        ts |= fl.terms(r.value, idf)
-    ok = bool(ts) and all(t[0] == "pos" and t[2] == 1 and t[1][0] == "call" and t[1][1].endswith("_split_keyvals") and len(t[1][3]) == 1 and
-                          t[1][3][0] == ("param", idf.qual, idf.params[0]) for t in ts)
-    ctx.ob("R5", ok, "helpers.infer_dialect returns the dialect half of the parser's result, inferring (no dialect passed)", func=idf,
-           sig="infer_dialect returns %s" % ", ".join(sorted(show(t) for t in ts)))
-    infer_writers = []
-    for f in ctx.proj.funcs.values():
-        if f.qual.startswith(target) or f.module.name in ("parser",):
-            continue
-        for n in ast.walk(f.node):
-            if isinstance(n, ast.Assign) and isinstance(n.targets[0], ast.Subscript) and norm(n.targets[0].value) == "dialect" and \
-                    const_str(n.targets[0].slice) in ("fmt", "field separator", "keyval separator", "quoted GFF2 values", "trailing semicolon", "repeated keys"):
-                infer_writers.append(f.qual)
-    ctx.ob("R5", not infer_writers, "nothing outside the parser sets dialect entries", func=ctx.proj.func(target),
-           sig="dialect entries written elsewhere: %s" % sorted(set(infer_writers)))
+    ffl = require_func(ctx, "feature.feature_from_line")
+    di = require_func(ctx, "iterators.DataIterator")
+
+    def plain(d):
+        if hasattr(d, "attrs") and "_d" in d.attrs:
+            d = d.attrs["_d"]
+        return [(k, list(v) if isinstance(v, (list, tuple)) else v) for k, v in d.items()] if isinstance(d, dict) else repr(d)[:60]
+
+    def run(f, args, pick, files=None):
+        it = scen.text_interp(ctx)
+        if files:
+            from .. import minidb
+            from ..scenario import install
+            install(it, minidb.MiniDB(), files=files)
+        try:
+            traces = it.run(f, args, copy_args=False)
+        except Unsupported as e:
+            ctx.require(False, "%s outside the analysable subset: %s" % (f.qual, e))
+        ctx.require(len(traces) == 1, "%s forks on concrete text (%d paths)" % (f.qual, len(traces)))
+        r = traces[0].result
+        if r[0] != "return":
+            return ("raise", r[1])
+        return pick(r[1])
+
+    for label, text in R5_CORPUS:
+        line = "chr1\tsrc\tgene\t1\t9\t.\t+\t.\t" + text
+        base = run(sk, {sk.params[0]: text}, lambda v: plain(v[1]))
+        views = [("helpers.infer_dialect", idf, run(idf, {idf.params[0]: text}, plain)),
+                 ("feature_from_line(...).dialect", ffl, run(ffl, {ffl.params[0]: line}, lambda v: plain(v.attrs.get("dialect")) if hasattr(v, "attrs") else repr(v)))]
+        if text:
+            views.append(("DataIterator(line).dialect", di, run(di, {di.params[0]: "one-line.txt"}, lambda v: plain(v.attrs.get("dialect")) if hasattr(v, "attrs") else repr(v),
+                                                                files={"one-line.txt": [line + "\n"]})))
+        for name, f, got in views:
+            if f is di and isinstance(base, list):
+                # the vote records the first-seen order of keys: a repeated key is listed once
+                base = [(k, list(dict.fromkeys(v)) if k == "order" else v) for k, v in base]
+            ok = got == base and isinstance(base, list)
+            ctx.ob("R5", ok, "one inference sits behind DataIterator, Feature and helpers.infer_dialect: they report what the parser infers (%s)" % label, func=f,
+                   sig="%s agrees with the parser on %s" % (name, label) if ok else "%s on %r: %s, the parser infers %s" % (name, text, _diff(got, base), _diff(base, got)))
+
+
+def _diff(a, b):
+    if not isinstance(a, list) or not isinstance(b, list):
+        return str(a)[:120]
+    db = dict((k, v) for k, v in b)
+    d = [(k, v) for k, v in a if db.get(k, "<absent>") != v]
+    return str(d)[:160] if d else ("key order %s" % [k for k, _ in a])
 
 
 def r6(ctx):
